@@ -44,6 +44,16 @@ def variants_of(model, gtext, which):
             elif w == 'json':
                 out[w] = Grammar.load(json.loads(json.dumps(model.asjson())))
             elif w == 'pickle':
+                # a model that has never parsed (a fresh compilation when the grammar text is at hand)
+                cold = tatsu.compile(gtext, name=(model.name or 'VT') + 'Cold') if gtext else model
+                out[w] = pickle.loads(pickle.dumps(cold))
+            elif w == 'pickle_used':
+                # a model that HAS parsed: its cached optimized copy and whatever else a parse leaves behind travel in the pickle
+                for t in ('', 'a', 'a b', 'b'):
+                    try:
+                        model.parse(t)
+                    except Exception:  # noqa: BLE001
+                        pass
                 out[w] = pickle.loads(pickle.dumps(model))
             elif w == 'modelsrc':
                 from tatsu.api.api import to_parsermodel_sourcecode
@@ -71,6 +81,12 @@ def concrete_relation(model, variants):
         d1 = {k: x for k, x in dict(v.directives).items() if k != 'grammar'}
         d2 = {k: x for k, x in dict(model.directives).items() if k != 'grammar'}
         res.append((f'{w}:directives', d1 == d2, [d1, d2]))
+        if w != 'pretty':
+            # the reloaded model prints as the original does (every node, literal and decorator survived)
+            try:
+                res.append((f'{w}:pretty-text', v.pretty() == model.pretty(), [v.pretty()[:200], model.pretty()[:200]]))
+            except Exception as e:  # noqa: BLE001
+                res.append((f'{w}:pretty-text', False, 'pretty() raises ' + type(e).__name__ + ': ' + str(e)[:100]))
         if w == 'pretty':
             try:
                 p1, p2 = model.pretty(), v.pretty()
